@@ -230,6 +230,12 @@ func (vm *VirtualMachine) resetForNewCode() {
 	vm.activeCode = nil
 	vm.loadedCode = map[*compiler.Code]*code{}
 	vm.modules = map[string]*object.Module{}
+	// Keep the modules that were supplied as globals available to imports
+	for name, value := range vm.globals {
+		if module, ok := value.(*object.Module); ok {
+			vm.modules[name] = module
+		}
+	}
 
 	// Clear arrays
 	for i := 0; i < MaxStackDepth; i++ {
